@@ -443,6 +443,35 @@ func childRecover(args []string) {
 		v("restarted-node-diverges:state", fmt.Sprintf("%v", d))
 	}
 	n.WaitQueue()
+	// stage 2: a recovery that looked clean must survive a further clean restart (a record that recovery skipped or
+	// a cursor it left stale shows only when later writes have landed and the queue file has been recycled)
+	if len(out) == 0 {
+		_ = ioutil.WriteFile(args[4]+".stage2", []byte("x"), 0644)
+		time.Sleep(20 * time.Millisecond)
+		n.Close()
+		time.Sleep(20 * time.Millisecond)
+		n2 := w.NewNode(args[1], w.Outsider)
+		stats["second_restarts"]++
+		st2 := n2.BC.StableBlock()
+		if st2.Hash().Hex() != p.FinalStable {
+			v("restart-after-clean-recovery:stable-differs", fmt.Sprintf("after a clean restart the stable block is %s (h%d), before it was %s", st2.Hash().Hex(), st2.Height(), p.FinalStable))
+		}
+		prev := common.Hash{}
+		for h := uint32(0); h <= st2.Height(); h++ {
+			want := common.HexToHash(p.Heights[fmt.Sprint(h)])
+			b := n2.BC.GetBlockByHeight(h)
+			if b == nil || b.Hash() != want || n2.BC.GetBlockByHash(want) == nil || (h > 0 && b.ParentHash() != prev) {
+				v("restart-after-clean-recovery:stable-chain-unreadable", fmt.Sprintf("height %d of the stable chain is not readable after the second restart", h))
+				break
+			}
+			prev = b.Hash()
+		}
+		if d := fx.Diff(p.ObsAt[st2.Hash().Hex()], fx.ObserveAt(n2.DB, st2.Hash(), U, fx.ObsOpts{Roots: true, Versions: true}), 4); len(d) > 0 {
+			v("restart-after-clean-recovery:state-differs", fmt.Sprintf("%v", d))
+		}
+		n2.WaitQueue()
+		os.Remove(args[4] + ".stage2")
+	}
 	finish()
 }
 
@@ -580,6 +609,10 @@ func supervise(c *run.Ctx, planPath string, p *Plan, pt point, dir string) {
 			c.Violation("C08/reopen-hangs:"+sc, fmt.Sprintf("recovery after a crash at %s did not finish", pt.Spec), wit)
 			return
 		}
+		if _, err := os.Stat(out + ".stage2"); err == nil {
+			c.Violation("C08/restart-after-clean-recovery:reopen-panics:"+reopenClass(se), fmt.Sprintf("recovery after a crash at %s looked clean, the rest of the history was played, but the next clean restart dies: %s", pt.Spec, firstLines(se, 3)), wit)
+			return
+		}
 		c.Violation("C08/reopen-panics:"+reopenClass(se)+":"+sc, fmt.Sprintf("database does not open / recover after a crash at %s: %s", pt.Spec, firstLines(se, 3)), wit)
 		return
 	}
@@ -640,19 +673,28 @@ func enumerate(c *run.Ctx, variant int, points, tears map[string]int) []point {
 	}
 	sort.Strings(sites)
 	r := run.NewRng(c.Seed, 88, uint64(variant))
-	pick := func(n int) []int {
+	pick := func(site string, n int) []int {
 		set := map[int]bool{1: true, n: true}
-		if c.Thorough() {
+		highVolume := strings.HasPrefix(site, "leveldb:") && !strings.HasSuffix(site, "stable-pointer") || (strings.HasPrefix(site, "flush:") && !strings.HasSuffix(site, "tmp.data"))
+		extra := 2
+		if site == "leveldb:before-put:cursor" {
+			extra = 40 // the window between publishing a record's position and advancing the file cursor
+		}
+		switch {
+		case c.Thorough() && !highVolume:
 			for i := 1; i <= n; i++ {
 				set[i] = true
 			}
-		} else {
+		case c.Thorough():
+			extra = 400
+			fallthrough
+		default:
 			for _, x := range []int{2, n / 4, n / 2, 3 * n / 4, n - 1} {
 				if x >= 1 && x <= n {
 					set[x] = true
 				}
 			}
-			for k := 0; k < 2; k++ {
+			for k := 0; k < extra; k++ {
 				set[1+r.Intn(n)] = true
 			}
 		}
@@ -666,7 +708,7 @@ func enumerate(c *run.Ctx, variant int, points, tears map[string]int) []point {
 	for _, s := range sites {
 		n := points[s]
 		// bitcask data files: one crash-point set per class, not per file
-		for _, o := range pick(n) {
+		for _, o := range pick(s, n) {
 			all = append(all, point{Plan: variant, Spec: CrashSpec{Site: s, Occ: o}})
 		}
 	}
@@ -676,7 +718,7 @@ func enumerate(c *run.Ctx, variant int, points, tears map[string]int) []point {
 	}
 	sort.Strings(tsites)
 	for _, s := range tsites {
-		for _, o := range pick(tears[s]) {
+		for _, o := range pick(s, tears[s]) {
 			all = append(all, point{Plan: variant, Spec: CrashSpec{Site: s, Occ: o, Tear: []int{50, 300, 700, 990}[r.Intn(4)]}})
 		}
 	}
@@ -686,7 +728,7 @@ func enumerate(c *run.Ctx, variant int, points, tears map[string]int) []point {
 func runAll(c *run.Ctx) {
 	fx.Quiet()
 	scn.SetParams()
-	nPlans := c.Pick(2, 6)
+	nPlans := c.Pick(2, 3)
 	for variant := 0; variant < nPlans; variant++ {
 		p := makePlan(c.Seed, variant)
 		planPath := filepath.Join(c.Scratch, fmt.Sprintf("plan%d.json", variant))
